@@ -59,6 +59,9 @@ def check(tier, seed):
     with C.WorkDir('C11') as wd:
         C.audit_sources()
         C.props_obligations(res, 'C11', wd)
+        a_ = list(res.assumption_lines)
+        C.props_obligations(res, 'C11b', wd)
+        res.assumption_lines = a_ + res.assumption_lines
         C.tie_b_kernels(res, wd, ('ck', 'ubx'))
         rng = C.rng_for(seed, 'C11')
         cases = []
